@@ -40,6 +40,7 @@ type Key struct {
 	Name string
 	Bits int
 	Z128 bool // toy modulus with Lstatzk=128 (needed where responses of 2048-bit-class length occur)
+	Wide bool // message length Lm differs from the hash length Lh (as in the 4096-bit parameters)
 	Pk   *gabikeys.PublicKey
 	Sk   *gabikeys.PrivateKey
 }
@@ -77,7 +78,7 @@ func (k *StoredKey) Build() (*Key, error) {
 	}
 	pk.Params = ToyParams(k.Bits, k.Lm, k.Lstatzk)
 	pk.Issuer = k.Name
-	return &Key{Name: k.Name, Bits: k.Bits, Pk: pk, Sk: sk, Z128: k.Bits < 1024 && k.Lstatzk == 128}, nil
+	return &Key{Name: k.Name, Bits: k.Bits, Pk: pk, Sk: sk, Z128: k.Bits < 1024 && k.Lstatzk == 128, Wide: pk.Params.Lm != pk.Params.Lh}, nil
 }
 
 var (
@@ -142,7 +143,7 @@ func KeyNames(bits int) []string {
 	}
 	var out []string
 	for _, n := range keyNames {
-		if keys[n].Z128 {
+		if keys[n].Z128 || keys[n].Wide {
 			continue
 		}
 		if bits == 0 || keys[n].Bits == bits {
@@ -161,6 +162,22 @@ func KeyNamesZ128() []string {
 	var out []string
 	for _, n := range keyNames {
 		if keys[n].Z128 {
+			out = append(out, n)
+		}
+	}
+	return out
+}
+
+// KeyNamesWide lists the keys whose message length differs from the hash length (Lm != Lh); maxBits
+// bounds the modulus length (0 = no bound).
+func KeyNamesWide(maxBits int) []string {
+	keysOnce.Do(loadKeys)
+	if keysErr != nil {
+		panic(keysErr)
+	}
+	var out []string
+	for _, n := range keyNames {
+		if keys[n].Wide && (maxBits == 0 || keys[n].Bits <= maxBits) {
 			out = append(out, n)
 		}
 	}
